@@ -14,7 +14,7 @@ def _build():
 
 def run(tier):
     c = vlib.Check("C10", tier, "exploration", RULE, "dimacs")
-    c.deadline = 110 if tier == "quick" else 1500
+    c.deadline = 170 if tier == "quick" else 1500
     c.assumptions = ["all lines are shorter than the reader's 1024-byte buffer (as the property states); every length below it is enumerated for one line at a time", "fmemopen streams behave like files for fgets"]
     b = _build()
     c.builds_done()
